@@ -255,6 +255,16 @@ def c10(run, args):
 
 # --------------------------------------------------------------------------- C16
 def c16(run, args):
+    if args.replay and json.load(open(args.replay)).get("replay_kind") == "conc":
+        b = json.load(open(args.replay))["behaviour"]
+        vh = run.build_harness()
+        ctf = run.harness_parallel(vh, "conc", [b], "c16conc", procs=1)
+        cres = run.validate("LinTrace", LIN_CFG % dict(mbs=tla_set(b["names"])), ctf, max_rej=2)
+        for r in cres["rejections"]:
+            run.violation("C16 concurrent removals (replay): the history is not explained (events / final store) at event #%d" % r["rejected_event_index"],
+                          {"behaviour": b, "rejection": r, "replay_kind": "conc"})
+        run.cov["rule"] = "replay of one recorded concurrent behaviour"
+        return
     if args.replay:
         return replay_file(run, args)
     quick = run.tier == "quick"
@@ -285,14 +295,81 @@ def c16(run, args):
                     out.append({"id": "%s-%d-%s-c%dk%d-h%d" % (label, i, st, cap, maxkb, hold), "store": st, "cap": cap, "maxkb": maxkb,
                                 "names": plain[i % 2], "events": True, "hold_ms": hold, "ops": o})
         return out
-    # (a) exactly-once: no hold; (b) ordering: every listener invocation takes 2 ms while the next operations run
+    def multi(abstract):
+        """adjacent deliveries become ONE transaction with several recipients (a recipient may name the same mailbox again,
+        plus-addressed); in a share of them the store refuses the last or the middle copy (the manager takes the others back)"""
+        out = []
+        for n, ops in enumerate(abstract):
+            o, j, merged = [], 0, 0
+            while j < len(ops):
+                x = dict(ops[j])
+                if x["op"] == "add":
+                    k = j + 1
+                    while k < len(ops) and ops[k]["op"] == "add" and k - j < 3:
+                        k += 1
+                    also = [y["mb"] for y in ops[j + 1:k]]
+                    if not also and (n + j) % 3 == 0:
+                        also = [x["mb"]]
+                    if also:
+                        merged += 1
+                        x["also"] = also
+                        x["fail_at"] = [0, 0, len(also) + 1, 2][(n + j) % 4]
+                    j = k
+                else:
+                    j += 1
+                o.append(x)
+            if merged:
+                out.append(o)
+        return out
+    # (a) exactly-once: no hold; (b) ordering: every listener invocation takes 2 ms while the next operations run;
+    # (m) multi-recipient transactions, also refused ones
     beh = mk(bfs, "bfs", 0, 0) + mk(bfs[run.seed % 7::7], "ord", 2, 0) + mk(sim, "sim", 0, 0) + mk(sim[::4], "simord", 1, 0)
+    mb_ = multi(bfs)
+    beh += mk(mb_[run.seed % 2::2] if quick else mb_, "multi", 0, 0) + mk(mb_[run.seed % 9::9], "multiord", 1, 0) + mk(multi(sim), "multisim", 0, 0)
     run.cov["samples"] = [bfs[len(bfs) // 3], sim[0][:12]] if bfs and sim else []
     replay_and_validate(run, vh, beh, "c16", "C16 after-events")
-    run.cov["rule"] = ("the C07/C08 histories (adds through StoreManager.Deliver, removals by delete, purge, cap, size limit, retention scan) on both stores with every limit combination; "
+    # (c) removals racing each other: several clients remove / purge the same messages at the same moment (web UI against REST
+    #     delete, POP3 against retention, delete against cap eviction); the history must linearize AND every message that left
+    #     must have been announced exactly once (LinTrace: EventsOK at the final event)
+    conc = []
+    for k in range(8 if quick else 24):
+        st = ["mem", "file"][k % 2]
+        cap, maxkb = [(0, 0), (2, 0), (0, 0), (0, 2)][k % 4] if st == "mem" else [(0, 0), (2, 0)][(k // 2) % 2]
+        order = [1, 2, 3]
+        rng.shuffle(order)
+        threads = []
+        for j in range(3 + k % 3):
+            t = [{"op": "remove", "mb": 0, "id": i} for i in (order if j % 2 == 0 else order[::-1])]
+            if (j + k) % 3 == 0:
+                t.insert(rng.randrange(len(t) + 1), {"op": "purge", "mb": 0})
+            if (j + k) % 4 == 1:
+                t.insert(rng.randrange(len(t) + 1), {"op": "add", "mb": 0, "meta": 1, "size": 600})
+            threads.append(t)
+        conc.append({"id": "race-%d-%s-c%dk%d" % (k, st, cap, maxkb), "store": st, "cap": cap, "maxkb": maxkb, "names": ["alpha", "beta", "gamma"],
+                     "pre": [{"op": "add", "mb": 0, "meta": 1, "size": 600} for _ in range(3)], "threads": threads,
+                     "repeat": (400 if st == "mem" else 60) * (1 if quick else 3)})
+    ctf = run.harness_parallel(vh, "conc", conc, "c16conc", procs=8)
+    cres = run.validate("LinTrace", LIN_CFG % dict(mbs=tla_set(["alpha", "beta", "gamma"])), ctf, max_rej=2)
+    run.cov["evaluations"] += cres["traces"]
+    cby = {b["id"]: b for b in conc}
+    for r in cres["rejections"]:
+        b = cby.get(str(r["trace"]).split("#")[0], {})
+        ev = r["rejected_event"]
+        if ev.get("a") == "final":
+            what = ("C16 after-events under concurrent removals (%s store cap=%s maxkb=%s): the 'deleted' events %s are not exactly one per message that left the mailbox "
+                    "(or the final store is not what the calls' results explain)") % (b.get("store"), b.get("cap"), b.get("maxkb"), [(e["mb"], e["id"]) for e in ev.get("evs", [])])
+        else:
+            what = "C16 concurrent removals (%s store): the history is not explained by the Mailstore contract at event #%d (%s %s -> %s)" % (
+                b.get("store"), r["rejected_event_index"], ev.get("a"), ev.get("k", ""), ev.get("r"))
+        run.violation(what, {"behaviour": dict(b, repeat=200), "rejection": r, "replay_kind": "conc"})
+    run.cov["rule"] = ("the C07/C08 histories (adds through StoreManager.Deliver, removals by delete, purge, cap, size limit, retention scan) on both stores with every limit combination, also with "
+                       "adjacent deliveries merged into one multi-recipient transaction (the same mailbox named twice included) of which the store refuses one copy in a share of cases "
+                       "(every store call the manager makes is then its own trace event); "
                        "a listener on both after-event brokers records every invocation with entry/exit stamps from one counter; at the end of each history TLC checks that the multiset of events "
                        "equals what the contract's state changes require (exactly one stored per entering, one deleted per leaving message), that no two invocations overlap, stored precedes deleted "
-                       "per message, and stored events of one mailbox arrive in arrival order; in the ordering variants each invocation takes 1-2 ms so that the following operations emit while it runs")
+                       "per message, and stored events of one mailbox arrive in arrival order; in the ordering variants each invocation takes 1-2 ms so that the following operations emit while it runs; "
+                       "plus racing removals: 3-5 goroutines remove / purge the same three messages of one mailbox at the same moment (hundreds of runs per configuration): the history must "
+                       "linearize and the 'deleted' events must be exactly one per message that left (LinTrace)")
     run.assumptions += ["quiescence: the history ends when no invocation started or finished for 5 ms", "size limit 4 KiB with messages of 1-3 KB so that a new message always survives its own delivery"]
 
 
